@@ -157,9 +157,18 @@ where
             //expand the map
             self.data.resize_with(x.as_usize() + 1, Default::default);
         }
-        //(a relation is recorded once, also when an annotation names the same item several times; items are always inserted in sorted order)
-        if self.data[x.as_usize()].last() != Some(&y) {
-            self.data[x.as_usize()].push(y);
+        //(a relation is recorded once, also when an annotation names the same item several times)
+        let values = &mut self.data[x.as_usize()];
+        match values.last() {
+            Some(last) if *last == y => {}
+            Some(last) if *last > y => {
+                //an older item gains a relation after a newer one did (protect_text adds data to
+                //existing annotations): keep the vector in chronological order
+                if let Err(pos) = values.binary_search(&y) {
+                    values.insert(pos, y);
+                }
+            }
+            _ => values.push(y),
         }
     }
 
